@@ -62,6 +62,13 @@ Definition node_wiring (addr : bytes) : wiring :=
        bytes_eqb (nth 4 new_row []) (bos "bidProcessor") &&
        bytes_eqb (last c01_bidprocessor_assigns []) (bos "providerAPI") &&
        c01_api_registered && c01_handlers_registered &&
+       (* the preconfirmation stream handlers are registered exactly once in NewNode (a second registration,
+          e.g. in the bidder branch with its auto-accepting processor, changes this table; WHICH branch holds
+          the single registration is not visible to the extractor -- the end-to-end class observes it) *)
+       (match c01_handler_calls with
+        | [[a]; [b]] => bytes_eqb a (bos "disc.Streams()") && bytes_eqb b (bos "preconfProto.Streams()")
+        | _ => false
+        end) &&
        bytes_eqb (nth 3 new_row []) (bos "bidderRegistry") &&
        bytes_eqb (nth 2 new_row []) (bos "preconfSigner");
      w_da_contract :=
@@ -248,6 +255,14 @@ Definition step (K : bytes -> bytes) (V : validators) (W : wiring) (s : st) (e :
   end.
 
 Definition run K V W (evs : list event) : st := fold_left (step K V W) evs init.
+
+(* the handler's own deadline: the literal of context.WithTimeout in handleBid (gen/Generated.v), in ms *)
+Definition deadline_ms : N :=
+  match c01_deadline_ns with [ns] => Z.to_N (ns / 1000000) | _ => 0 end.
+(* a history in which the events [after] happen t ms after handler h started waiting (history [pre]); the
+   handler's deadline step comes first exactly when t has reached the deadline *)
+Definition timed_history (h : N) (t : N) (pre after : list event) : list event :=
+  if t <? deadline_ms then pre ++ after ++ [DeadlineFire h] else pre ++ [DeadlineFire h] ++ after.
 
 Definition eff_handler (e : heffect) : N :=
   match e with HSign h _ | HSend h _ _ | HStored h _ | HWrite h _ | HTake h _ | HReturn h _ => h end.
